@@ -2,7 +2,7 @@ SPECIFICATION Spec
 CONSTANTS
   Roots <- N_Roots
   Ops <- N_FftOps
-  Scheds = {"any"}
+  Scheds = {"sync"}
   MaxDepth = 1
   MaxRuns = 1
   MaxTasks = 12
